@@ -49,6 +49,18 @@ Theorem C05_hidden_at_once : forall p s e ob s',
 Proof. exact deferred_delete_hides. Qed.
 Print Assumptions C05_hidden_at_once.
 
+(* ... and has_component / get_component / get(T) answer exactly as before the
+   delete_entity: the components remain queryable until the frame applies it *)
+Theorem C05_components_stay_queryable : forall p s e ob s',
+  step5 p s (Delete e false) ob = Some s' ->
+  att s' = att s /\
+  (forall e' ty r, In (QHas e' ty r) (o_qs ob) ->
+     r = match tget (att s) e' ty with Some _ => true | None => false end) /\
+  (forall e' ty r, In (QGetC e' ty r) (o_qs ob) -> r = tget (att s) e' ty) /\
+  (forall ty l, In (QGet ty l) (o_qs ob) -> Permutation l (tall (att s) ty)).
+Proof. exact deferred_delete_keeps_components. Qed.
+Print Assumptions C05_components_stay_queryable.
+
 (* a frame without an error-path mark returns normally; its log is the on_remove
    calls of the marked entities' components, then the processor; afterwards no
    mark is left and no marked entity owns anything (its id is free again) *)
@@ -105,6 +117,12 @@ Example C05_still_visible_rejected :
   holds_b {| c_p := ex_p; c_tr :=
     [ (Create (Some 5) [1], mkobs (Some 5) 0 [] [mkcb CAdd 1 5 true] []);
       (Delete 5 false, mkobs None 0 [] [] [QExists 5 true]) ] |} = false.
+Proof. vm_compute. reflexivity. Qed.
+Example C05_components_hidden_rejected :
+  holds_b {| c_p := ex_p; c_tr :=
+    [ (Create (Some 5) [1], mkobs (Some 5) 0 [] [mkcb CAdd 1 5 true] [QHas 5 1 true]);
+      (Delete 5 false, mkobs None 0 [] [] [QExists 5 false; QGetC 5 1 (Some 1); QGet 1 [(5, 1)];
+                                           QHas 5 1 false]) ] |} = false.
 Proof. vm_compute. reflexivity. Qed.
 Example C05_poisoned_frame_rejected :
   holds_b {| c_p := ex_p; c_tr :=
